@@ -368,6 +368,22 @@ def run(tier, seed):
             ofail.append({"config": gaps, "lines": [], "file": "obs.m.v.csv", "real_rows": [str(v) for v in vals],
                           "expected_points": ["1", "2", "3", "4", "5"], "tag": {"kind": "lines-after-blank-lines"},
                           "problem": "the spotlight prints empty and blank lines between its samples: every sample must still be recorded"})
+    # a long line (longer than any buffer of the line reader: 5 000 and 70 000 characters): one data point, the whole text
+    longp = ("role logger\n  :wait sleep 0.8\n"
+             "  spotlight echo \"msg first\"; printf 'msg %s\\n' \"$(head -c 5000 /dev/zero | tr '\\0' x)END\"; "
+             "printf 'msg %s\\n' \"$(head -c 70000 /dev/zero | tr '\\0' y)END\"; echo \"msg last\"; sleep 30\n"
+             "  signal msg event at ^(?P<ts_now>)msg (?P<event>.*)$\nend\ncast\n  m plays logger\nend\nscript\n  tempo 100ms\n"
+             "  scene w entails for m: wait\n  storyline w\nend\naudience\n  obs watches m msg\nend\n")
+    for er in e2e.run_many([e2e.Play(longp, timeout=30) for _ in range(1 if tier == "quick" else 3)], workers=3):
+        rep.count("e2e-spotlight-plays with long lines")
+        rows = [l for l in er["csv"].get("obs.m.msg.csv", "").splitlines() if l.strip()]
+        texts = [l.split('"')[1] if '"' in l else "" for l in rows]
+        want = ["first", "x" * 5000 + "END", "y" * 70000 + "END", "last"]
+        if texts != want:
+            ofail.append({"config": longp, "lines": [], "file": "obs.m.msg.csv",
+                          "real_rows": ["%d characters ending in %s" % (len(t), t[-8:]) for t in texts],
+                          "expected_points": ["%d characters ending in %s" % (len(t), t[-8:]) for t in want],
+                          "tag": {"kind": "long-line"}, "problem": "a long spotlight line is one sample: one data point carrying the whole captured text"})
     # a dropped line leaves no trace: no data point, and no audit round at its time stamp either (an observer of `t`
     # sees one row per round)
     for badline, why in (("100 t0=oops", "malformed number"), ("100 t0=", "empty number"), ("100 t0=1e", "truncated exponent")):
